@@ -114,7 +114,7 @@ func (dist *GeometricDistribution) SetParameters(parameters Vector) error {
 
 func (dist *GeometricDistribution) ImportConfig(config ConfigDistribution, t ScalarType) error {
 
-  if parameters, ok := config.GetParametersAsFloats(); !ok {
+  if parameters, ok := config.GetParametersAsFloats(); !ok || len(parameters) < 1 {
     return fmt.Errorf("invalid config file")
   } else {
     p := NewScalar(t, parameters[0])
